@@ -33,4 +33,25 @@ PROPS = {
                         "no concurrent writer to the same directory"],
         "technique": "proof (invariant over all runs/crash points of a syscall-level protocol model) + trace extraction tie + fault injection search",
     },
+    "C07": {
+        "harness": "vh-fmt",
+        "level_text": "Partial. Kernel-checked theorems about a byte-level model of the text helpers of range formatting "
+                      "(clamp_range, expand_to_full_lines, line_indent_prefix, split_inclusive/split_line_ending, strip_base_indent, "
+                      "apply_base_indent with kept multi-line-token lines, and applying the edit): text outside the replaced range is "
+                      "untouched, the expanded range covers the selection / stays inside the document / is made of whole lines, "
+                      "strip and apply are inverse on well-indented fragments, and — for ANY fragment formatter that keeps non-blank "
+                      "bytes — the spliced document has the same non-blank bytes as the original; all for every text, range and prefix. "
+                      "The model is compared with the real (hook-exported) helpers on exhaustive small + seeded random fragments every "
+                      "run. Which region is selected and how the fragment is re-formatted (the formatter's rule set) is decided by "
+                      "search only: reformat_range on generated valid documents x selections x configurations must return a valid range "
+                      "covering every selected token, splice to a document that reparses with the same normalised token sequence and "
+                      "comment structure, and must refuse documents with syntax errors.",
+        "level_note": "Trusted: Lean kernel, harness (generator, token normaliser, splice), correspondence run as the tie. Search-only: "
+                      "select_format_range / explicit table-argument-parameter targets / layout plan / fragment formatting. The LSP "
+                      "handler that turns the result into a TextEdit is not exercised here.",
+        "trusted_base": ["correspondence run (RangeText model vs range_format helpers through the verif hook)",
+                         "token normaliser of the harness (parser-based; statement ';', trailing table separators, quote style, single-argument call parentheses, blanks inside comments)"],
+        "assumptions": ["documents shorter than 2^32 bytes", "Lua 5.5 syntax level for generated documents"],
+        "technique": "proof about the text pipeline + correspondence tie + property oracle search for the rule set (partial)",
+    },
 }
